@@ -211,6 +211,22 @@ def ops_for(a, m):
             m2.bonds = set(m.bonds) | {(x + nn, y + nn, t) for x, y, t in m.bonds} | {(x + 2 * nn, y + 2 * nn, t) for x, y, t in m.bonds}
         return b, m2
     ops.append(("concatenate([boxless copy, a, copy with another box])", cat_other))
+    def rep(a, m):
+        # repeat(): k copies of the atoms in the same model(s), each with its own coordinates
+        nn = m.n()
+        if nn == 0 or nn > 6:
+            return a, None
+        base = a.coord if m.stack else a.coord[None]
+        shifts = [100.0, 200.0]
+        new = np.stack([base + s for s in shifts])                 # (k, m, n, 3)
+        b = struc.repeat(a, new if m.stack else new[:, 0])
+        m2 = m.copy()
+        m2.ann = {k: v + v for k, v in m.ann.items()}
+        m2.coord = [[tuple(float(x) + shifts[r] for x in c[i]) for r in range(2) for i in range(nn)] for c in m.coord]
+        if m.bonds is not None:
+            m2.bonds = set(m.bonds) | {(x + nn, y + nn, t) for x, y, t in m.bonds}
+        return b, m2
+    ops.append(("repeat twice (shifted coordinates)", rep))
     def add_other(a, m):
         o = a.copy()
         if o.box is not None:
@@ -224,6 +240,21 @@ def ops_for(a, m):
             m2.bonds = set(m.bonds) | {(x + nn, y + nn, t) for x, y, t in m.bonds}
         return b, m2
     ops.append(("a + (copy with another box)", add_other))
+    def cat_nobonds(a, m):
+        # operands without a bond list contribute no bonds; the others keep theirs (shifted)
+        if m.bonds is None:
+            return a, None
+        o = a.copy()
+        o.bonds = None
+        b = struc.concatenate([o, a]) if m.n() % 2 else (a + o)
+        nn = m.n()
+        off = nn if m.n() % 2 else 0
+        m2 = m.copy()
+        m2.ann = {k: v + v for k, v in m.ann.items()}
+        m2.coord = [c + c for c in m.coord]
+        m2.bonds = {(x + off, y + off, t) for x, y, t in m.bonds}
+        return b, m2
+    ops.append(("concatenate with a copy that has no bond list", cat_nobonds))
     def edit(a, m):
         a = a.copy()
         a.res_id[0] = 42
